@@ -1012,9 +1012,46 @@ def nshards(tier):
     return 32 if tier == 'quick' else 96
 
 
+def fam_etypes(ctx):
+    """defining data held in arrays of another element type (single / half precision, integers) or in lists of NumPy scalars: the same
+    points, so the same line - coordinates, principal point, contains() and point() agree with the line built from the float64 copy"""
+    SE3, Plucker, Plane = _lib()
+    pts = [(np.array([1.0, 2.0, -0.5]), np.array([3.0, -1.0, 2.5])), (np.array([0.0, 0.0, 0.0]), np.array([0.25, 4.0, -2.0])), (np.array([512.0, -256.0, 128.0]), np.array([513.0, -254.0, 128.5]))]
+    conv = {'float32': lambda x: x.astype(np.float32), 'float16': lambda x: x.astype(np.float16), 'int64': lambda x: (4 * x).astype(np.int64),
+            'list-f32': lambda x: [np.float32(e) for e in x], 'list-int': lambda x: [int(4 * e) for e in x], 'tuple': lambda x: tuple(x.tolist())}
+    for (pi_, (P_, Q_)), (tn, cv) in itertools.product(enumerate(pts), conv.items()):
+        k = 4.0 if 'int' in tn else 1.0
+        for cn, mk in (('PQ', lambda a, b_: Plucker.PQ(a, b_)), ('PointDir', lambda a, b_: Plucker.PointDir(a, b_))):
+            cid = 'C19/etype/%s/%s/p%d' % (cn, tn, pi_)
+            if not ctx.want(cid):
+                continue
+            ctx.case(cid, key=cid)
+            p = dict(ctor=cn, etype=tn, method='ctor', rel='-')
+            second = Q_ if cn == 'PQ' else Q_ - P_
+            okf, Lf = call(mk, k * P_, k * second)
+            ok, L = call(mk, cv(P_), cv(second))
+            if not okf:
+                continue
+            if not ok:
+                ctx.note('etype_refused', 'Plucker.%s(%s) -> %s' % (cn, tn, type(L).__name__))
+                continue
+            M = max(1.0, float(np.abs(k * P_).max()), float(np.abs(k * Q_).max()))
+            for what, f in (('vec', lambda o: vec(o.vec) / norm(vec(o.w))), ('pp', lambda o: vec(o.pp)), ('point', lambda o: vec(o.point(0.75)).ravel()),
+                            ('contains', lambda o: np.array([float(asbool(o.contains(k * P_))), float(asbool(o.contains(k * (P_ + 0.3 * (Q_ - P_)))))]))):
+                o1, r1 = call(f, L)
+                o2, r2 = call(f, Lf)
+                if not o2:
+                    continue
+                if not o1:
+                    ctx.fail(cid, 'Plucker.' + cn, 'raises:' + type(r1).__name__, dict(p, what=what), '%s of the line built from %s data raised %r' % (what, tn, r1))
+                elif np.shape(r1) != np.shape(r2) or not np.all(np.abs(np.asarray(r1, dtype=float) - np.asarray(r2, dtype=float)) <= TOL * M * (M if what == 'vec' else 1.0)):
+                    ctx.fail(cid, 'Plucker.' + cn, 'mismatch', dict(p, what=what), '%s of the line built from %s data differs from the float64 copy: %s vs %s' %
+                             (what, tn, np.asarray(r1).tolist(), np.asarray(r2).tolist()))
+
+
 def shards(tier, seed):
     n = nshards(tier)
-    return [('lines', k, n, tier, seed) for k in range(n)] + [('planes', 0, 1, tier, seed), ('reuse', 0, 1, tier, seed)]
+    return [('lines', k, n, tier, seed) for k in range(n)] + [('planes', 0, 1, tier, seed), ('reuse', 0, 1, tier, seed), ('etype', 0, 1, tier, seed)]
 
 
 def run_shard(ctx, shard):
@@ -1025,6 +1062,9 @@ def run_shard(ctx, shard):
         return
     if kind == 'reuse':
         fam_reuse(ctx, tier, seed)
+        return
+    if kind == 'etype':
+        fam_etypes(ctx)
         return
     letters = all_letters(tier, seed)
     # pair-family lines are much heavier than the others: deal both kinds round-robin separately
